@@ -199,7 +199,7 @@ pub enum CBORCase {
     Unsigned(u64),
     Negative(u64),
     ByteString(ByteString),
-    Text(CborText),
+    Text(String),
     Array(Vec<CBOR>),
     Map(Map),
     Tagged(Tag, CBOR),
@@ -361,6 +361,11 @@ pub mod tags {
     pub const TAG_DIGEST: u64 = 40001;
     pub const TAG_ENCRYPTED: u64 = 40002;
     pub const TAG_COMPRESSED: u64 = 40003;
+    pub const TAG_REQUEST: u64 = 40004;
+    pub const TAG_RESPONSE: u64 = 40005;
+    pub const TAG_FUNCTION: u64 = 40006;
+    pub const TAG_PARAMETER: u64 = 40007;
+    pub const TAG_EVENT: u64 = 40026;
 }
 
 // ============================================================================ EncryptedMessage / Compressed / keys
@@ -980,10 +985,59 @@ impl TryFrom<CBOR> for String {
         ensures r matches Ok(s) ==> text_cbor(s@) == c, (exists|t: Seq<char>| text_cbor(t) == c) ==> r is Ok
     { unimplemented!() }
 }
+// [A-text-cbor] text_cbor(s) is the Text item with exactly those characters, and every Text item is one
+pub broadcast axiom fn axiom_text_cbor_shape(s: Seq<char>)
+    ensures *(#[trigger] text_cbor(s)).0 matches CBORCase::Text(t) && t@ == s;
+pub open spec fn cbor_text_chars(c: CBOR) -> Seq<char> { match *c.0 { CBORCase::Text(t) => t@, _ => Seq::empty() } }
+pub broadcast axiom fn axiom_text_cbor_of(c: CBOR)
+    ensures *c.0 is Text ==> c == text_cbor(#[trigger] cbor_text_chars(c));
 // [A-text-cbor] distinct texts have distinct items
 pub broadcast axiom fn axiom_text_cbor_inj(a: Seq<char>, b: Seq<char>)
     requires #[trigger] text_cbor(a) == #[trigger] text_cbor(b)
     ensures a == b;
+// [A-string-from-str] String::from(&str) / <&str as Into<String>>::into keep the characters
+pub assume_specification<'a> [<String as From<&'a str>>::from] (s: &str) -> (r: String)
+    ensures r@ == s@;
 // [A-str-to-string] str::to_string / String::as_str / Option::as_deref keep the characters
 #[verifier::external_body]
 pub fn str_to_string(s: &str) -> (r: String) ensures r@ == s@ { unimplemented!() }
+
+// ============================================================================ ARID (bc-components) and tagged-value helpers of dcbor
+#[verifier::external_body]
+#[derive(Debug)]
+pub struct ARID { _p: () }
+impl Clone for ARID {
+    #[verifier::external_body]
+    fn clone(&self) -> (r: Self) ensures r == *self { unimplemented!() }
+}
+pub uninterp spec fn arid_cbor(x: ARID) -> CBOR;
+impl vstd::std_specs::convert::FromSpecImpl<ARID> for CBOR {
+    open spec fn obeys_from_spec() -> bool { true }
+    open spec fn from_spec(x: ARID) -> Self { arid_cbor(x) }
+}
+impl From<ARID> for CBOR {
+    #[verifier::external_body]
+    fn from(x: ARID) -> Self { unimplemented!() }
+}
+
+impl vstd::std_specs::convert::TryFromSpecImpl<CBOR> for ARID {
+    open spec fn obeys_try_from_spec() -> bool { false }
+    uninterp spec fn try_from_spec(c: CBOR) -> Result<ARID, Error>;
+}
+impl TryFrom<CBOR> for ARID {
+    type Error = Error;
+    // [A-arid-codec]
+    #[verifier::external_body]
+    fn try_from(c: CBOR) -> (r: Result<ARID, Error>)
+        ensures r matches Ok(a) ==> arid_cbor(a) == c
+    { unimplemented!() }
+}
+impl CBOR {
+    // [A-try-into-expected-tagged-value] Ok(item) iff the item is Tagged(tag, item)
+    #[verifier::external_body]
+    pub fn try_into_expected_tagged_value(self, tag: u64) -> (r: Result<CBOR>)
+        ensures
+            (*self.0 is Tagged && self.s_tag() == tag) ==> r == Ok::<CBOR, Error>(self.s_inner()),
+            !(*self.0 is Tagged && self.s_tag() == tag) ==> r is Err,
+    { unimplemented!() }
+}
